@@ -5,6 +5,7 @@ import Model.Left
 import Generated.C08
 import Proofs.LeftDeriv
 import Proofs.LeftQuirk
+import Proofs.LeftSubsume
 import Proofs.WellFormed
 /-! C08 — Chart-state scoring equals left-to-right scoring for every derivation.
 
@@ -176,6 +177,42 @@ theorem no_rest_fragment_table (a : Arpa) (T : Table) (H : Hyp a T) (r : Rule) (
 theorem no_rest_fragment (a : Arpa) (wf : WellFormed a) (hp : ContextsOnlyBackoff a) (r : Rule) (hv : ValidWords a r.yield) :
     (ruleScore (build a) (noRest (build a)) none r).2 = specSeq a [] r.yield :=
   no_rest_fragment_table a (build a) (hyp_build a wf hp) r hv
+
+/-! ### lm/partial.hh -/
+
+/-- **Subsume** (`between_length = 0`): joining two finished fragments returns, as new `first_left` / `second_right`,
+the canonical chart state of the concatenation, and `first + second + adjustment` is its canonical score. -/
+theorem subsume_frag (a : Arpa) (T : Table) (H : Hyp a T) (R : Ptr → Rat) (ws₁ : List Word) (L₁ : Nat) (c₁ : Chart) (p₁ : Rat)
+    (G₁ : FragC a T R ws₁ L₁ c₁ p₁) (ws₂ : List Word) (L₂ : Nat) (c₂ : Chart) (p₂ : Rat) (G₂ : FragC a T R ws₂ L₂ c₂ p₂) :
+    ∃ L', FragC a T R (ws₁ ++ ws₂) L'
+      { left := (subsume T R c₁.left c₁.right c₂.left c₂.right 0).2.1, right := (subsume T R c₁.left c₁.right c₂.left c₂.right 0).2.2 }
+      (p₁ + p₂ + (subsume T R c₁.left c₁.right c₂.left c₂.right 0).1) := subsume_frag_aux H R G₁ G₂
+
+/-- the canonical description of a word sequence is unique when the extends-left marks are exact (`build a`): any two
+derivations of the same yield return the same score and the same number of left pointers, also with rest costs -/
+theorem derivation_score_unique (a : Arpa) (wf : WellFormed a) (hp : ContextsOnlyBackoff a) (R : Ptr → Rat) (r r' : Rule)
+    (hy : r.yield = r'.yield) (hv : ValidWords a r.yield) :
+    (ruleScore (build a) R none r).2 = (ruleScore (build a) R none r').2 := by
+  obtain ⟨L, G⟩ := derivation_frag a (build a) (hyp_build a wf hp) R r hv
+  obtain ⟨L', G'⟩ := derivation_frag a (build a) (hyp_build a wf hp) R r' (by rw [← hy]; exact hv)
+  rw [← hy] at G'
+  exact (frag_unique R (xlSound_build a) G G').2
+
+/-- **the adjustment of Subsume is exactly whole − parts**, for all derivations of the parts and of the whole -/
+theorem subsume_whole_minus_parts (a : Arpa) (wf : WellFormed a) (hp : ContextsOnlyBackoff a) (R : Ptr → Rat) (r₁ r₂ r : Rule)
+    (hy : r.yield = r₁.yield ++ r₂.yield) (hv : ValidWords a r.yield) :
+    (subsume (build a) R (ruleScore (build a) R none r₁).1.left (ruleScore (build a) R none r₁).1.right
+        (ruleScore (build a) R none r₂).1.left (ruleScore (build a) R none r₂).1.right 0).1 =
+      (ruleScore (build a) R none r).2 - (ruleScore (build a) R none r₁).2 - (ruleScore (build a) R none r₂).2 := by
+  have H := hyp_build a wf hp
+  rw [hy] at hv
+  obtain ⟨L₁, G₁⟩ := derivation_frag a (build a) H R r₁ (ValidWords.append_left hv)
+  obtain ⟨L₂, G₂⟩ := derivation_frag a (build a) H R r₂ (ValidWords.append_right hv)
+  obtain ⟨L, G⟩ := derivation_frag a (build a) H R r (by rw [hy]; exact hv)
+  obtain ⟨L', G'⟩ := subsume_frag_aux H R G₁ G₂
+  rw [hy] at G
+  have := (frag_unique R (xlSound_build a) G G').2
+  rw [this]; grind
 
 /-! ### non-vacuity and the defect of the unrepaired trie builder (pre-observation G)
 
